@@ -7,9 +7,9 @@
 
 namespace {
 
-enum Kind { K_COAWAIT = 0, K_RUNFN, K_RUNFN_BIG, K_DETACHED, K_DETACHED_BIG, K_COAWAIT_FUT, K_RUN_ASYNC, K_RESUME_SP, K_NK };
-static const char *kind_names[] = {"coawait", "runfn", "runfnbig", "detached", "detachedbig", "coawaitfut", "runasync", "resumesp"};
-static const char *lost_labels[] = {"lost:coawait", "lost:runfn", "lost:runfnbig", "lost:detached", "lost:detachedbig", "lost:coawait_fut", "lost:run_async", "lost:resume_sp"};
+enum Kind { K_COAWAIT = 0, K_RUNFN, K_RUNFN_BIG, K_DETACHED, K_DETACHED_BIG, K_COAWAIT_FUT, K_RUN_ASYNC, K_RESUME_SP, K_CURRENT, K_NK };
+static const char *kind_names[] = {"coawait", "runfn", "runfnbig", "detached", "detachedbig", "coawaitfut", "runasync", "resumesp", "current"};
+static const char *lost_labels[] = {"lost:coawait", "lost:runfn", "lost:runfnbig", "lost:detached", "lost:detachedbig", "lost:coawait_fut", "lost:run_async", "lost:resume_sp", "lost:current"};
 enum StopMode { ST_STOP = 0, ST_DTOR, ST_SELF, ST_RACE, ST_NK };
 static const char *stop_names[] = {"stop", "dtor", "selfstop", "racestop"};
 
@@ -53,6 +53,16 @@ static cocls::async<void> job_coawait_fut(cocls::thread_pool &pool, cocls::futur
     try {
         int v = co_await pool(gate);
         if (v != 5) vrt_fail("pool/wrong-value", "co_await pool(future) returned %d", v);
+        mark_ran(id);
+    } catch (const cocls::await_canceled_exception &) {
+        mark_cancelled(id);
+    }
+}
+static cocls::async<void> job_current(cocls::thread_pool &pool, int id) {
+    // moves to a worker, then gives way with co_await thread_pool::current(): re-submitted to the pool it runs in
+    try {
+        co_await pool;
+        co_await cocls::thread_pool::current();
         mark_ran(id);
     } catch (const cocls::await_canceled_exception &) {
         mark_cancelled(id);
@@ -112,6 +122,7 @@ static void scenario(int nworkers, int njobs, const int *kinds, int stopmode) {
             for (int i = 0; i < njobs; i++) {
                 switch (kinds[i]) {
                     case K_COAWAIT: job_coawait(P, i).detach(); break;
+                    case K_CURRENT: job_current(P, i).detach(); break;
                     case K_RUNFN:
                         res[i].reset(new cocls::future<int>(P.run([i, g = ClosureGuard(i)] {
                             mark_ran(i);
